@@ -222,6 +222,17 @@ impl Built {
         }
         Ok((out, quiet))
     }
+    /// the non-overlapping (resp. overlapping) iterator type of this searcher obeys the Iterator protocol
+    pub fn iter_protocol(&self, h: &[u8], s: usize, e: usize, anch: bool, want: &[M], overlapping: bool) -> Result<(), String> {
+        let inp = input(h, s, e, anch, false);
+        if overlapping {
+            with_aut!(self, a => crate::gen::iter_protocol(&|| Automaton::try_find_overlapping_iter(a, inp.clone()).unwrap(), &cv, want),
+                            t => crate::gen::iter_protocol(&|| t.try_find_overlapping_iter(inp.clone()).unwrap(), &cv, want))
+        } else {
+            with_aut!(self, a => crate::gen::iter_protocol(&|| Automaton::try_find_iter(a, inp.clone()).unwrap(), &cv, want),
+                            t => crate::gen::iter_protocol(&|| t.try_find_iter(inp.clone()).unwrap(), &cv, want))
+        }
+    }
     pub fn top(&self) -> Option<&AhoCorasick> {
         match self {
             Built::Top(t) => Some(t),
